@@ -627,6 +627,8 @@ func (c *EvalCtx) call(e *Expr) CV {
 		return boolean("(fp.eq " + a[0].T + " " + a[1].T + ")")
 	case "typeName":
 		return CV{T: "(typeName (dyn " + args()[0].T + "))", Sort: "Str", Type: types.Typ[types.String]}
+	case "runeCount":
+		return integer("(runeCount " + args()[0].T + ")")
 	case "idxOf":
 		a := args()
 		return integer(idxT(a[0].T, a[1].T))
